@@ -61,6 +61,8 @@ thread_local! {
     /// child actor -> numbers of the unit broadcasts submitted to it and not yet handled
     pub static UNIT_CHILDREN: RefCell<HashMap<usize, Vec<usize>>> = RefCell::new(HashMap::new());
     pub static UNITQ: RefCell<HashMap<usize, std::collections::VecDeque<usize>>> = RefCell::new(HashMap::new());
+    /// actor id -> number of `started` callbacks begun so far (all incarnations, all values)
+    pub static STARTS: RefCell<HashMap<usize, usize>> = RefCell::new(HashMap::new());
     pub static NEXT_ACTOR: RefCell<usize> = const { RefCell::new(0) };
     pub static NEXT_BIRTH: RefCell<usize> = const { RefCell::new(0) };
     pub static NEXT_MSG: RefCell<usize> = const { RefCell::new(100000) };
@@ -166,7 +168,10 @@ impl<const K: usize> Default for Node<K> {
         match recreate_of {
             Some(a) => {
                 let birth = fresh_birth();
-                let inc = CBSTATE.with(|_| 0); // set at started
+                // the scripts of `started` are indexed by the actor's incarnation, whichever value runs it: a value
+                // recreated from `Default` carries on where its predecessor left off (so that "a later start fails"
+                // means the same under both restart strategies)
+                let inc = STARTS.with(|m| m.borrow().get(&a).copied().unwrap_or(0));
                 emit(format!("vnew {} {} {}", a, birth, K));
                 Node { id: a, birth, inc, log: vec![], done: vec![], stopped_seen: false }
             }
@@ -521,6 +526,7 @@ impl<const K: usize> Actor for Node<K> {
             b.started[inc.min(b.started.len() - 1)].clone()
         };
         self.inc += 1;
+        STARTS.with(|m| m.borrow_mut().insert(self.id, self.inc));
         crate::prog::CTXMAP.with(|m| m.borrow_mut().insert(hannibal::verif::ctx_id(ctx), self.id));
         let g = CbGuard::begin(self.id, self.birth, "started -".to_string());
         match run_script(self, ctx, &script).await {
